@@ -11,6 +11,14 @@ def region(r, low=False):
 
 def gen(r, hid, mode=None, max_lifetimes=2):
     mode = mode or r.choice(["straddle", "straddle", "neigh", "low", "hole", "hole_lo", "hole_hi", "edge", "edge", "full", "empty", "alias"])
+    if mode.startswith("align"):
+        # a target at an arbitrary byte alignment (hand-placed / JIT-generated code): every residue mod 16
+        B = region(r); k = int(mode[5:]) if len(mode) > 5 else r.randrange(16); t = B + 0x200 + k
+        decl = [f"A={B:x}/2", f"F={t:x}/1111", f"F={t + 32:x}/aaa1", "S"]
+        names = [f"t0@{t:x}", f"n0@{t + 32:x}"]
+        ops = [f"I:t0:{r.choice(['raw', 'clo', 'fake', 'unc'])}:{r.randint(0, 3)}", "C:t0", f"I:t0:raw:{r.randint(0, 3)}"]
+        lts = [ops]
+        return f"{hid} {','.join(decl + names + ['fk0', 'fk1', 'fk2', 'fk3'])} " + "|".join(",".join(o) for o in lts), lts
     if mode == "alias":
         # the named function is a forwarding stub (jmp rel32) to its neighbour: only the STUB's entry may change
         B = region(r); off = r.choice([0, 16, 256, 4064, 4080 - 16]); t = B + off; n = t + 16 * r.choice([1, 2, 3])
